@@ -345,7 +345,28 @@ def gen_seq(rng, depth=0):
                 # the code), so datetimes inside those containers are generated at whole seconds
                 r, e, _t = gen_scalar(rng, whole=c in ("dataarray_obj", "series_obj"))
                 items.append(r); exps.append(e)
+        if n > 0 and rng.random() < 0.08:
+            # a local-time record across the night the clocks go back: the same wall-clock time twice, told apart only
+            # by `fold` (PEP 495) - two different instants, an hour (Lord Howe: half an hour) apart
+            name, f = rng.choice(FOLD_TIMES)
+            for fold in rng.choice([(0, 1), (1, 0)]):
+                r, e = fold_item(name, f, fold)
+                items.append(r); exps.append(e)
+            tags.append("dst-fold-pair")
     return {"k": "seq", "c": c, "items": items}, ("seq", exps), tags
+
+
+FOLD_TIMES = [("America/New_York", (2021, 11, 7, 1, 30, 0, 0)), ("America/New_York", (2022, 11, 6, 1, 15, 0, 0)),
+              ("Europe/Berlin", (2021, 10, 31, 2, 30, 0, 0)), ("Australia/Lord_Howe", (2022, 4, 3, 1, 45, 0, 0))]
+
+
+def fold_item(name, f, fold):
+    from zoneinfo import ZoneInfo
+    d = datetime(*f, tzinfo=ZoneInfo(name), fold=fold)
+    off = int(d.utcoffset().total_seconds())
+    loc_us = int((datetime(*f[:6]) - datetime(1970, 1, 1)).total_seconds()) * 10 ** 6 + f[6]
+    return ({"k": "aware", "f": list(f), "off": off, "cls": "dt", "tz": "zone", "tzname": name, "fold": fold},
+            ("inst", loc_us - off * 10 ** 6))
 
 
 MALFORMED = [
